@@ -295,7 +295,11 @@ func (root *Root) addExtends(extends ...*Extend) (undo []func(), err error) {
 			if cur == nil {
 				cur = root.dirs.get(x.Adds.Name())
 			}
-		} else if schema, _ := x.Adds.(*Schema); schema != nil && root.schema != nil {
+		} else if schema, _ := x.Adds.(*Schema); schema != nil && root.schema != nil && root.types.get("") != nil {
+			// Only a schema that was declared can be extended. One that is
+			// derived from the Query, Mutation and Subscription types is
+			// not there yet when it is extended in the document that
+			// defines those types.
 			cur = root.schema
 		}
 		if cur == nil {
